@@ -63,6 +63,9 @@ structure Req where
   /-- `PackageBuilder::new(..)` of the request and the calls made on it, in the harness' order (input of `Build.run`) -/
   st0 : RpmVerif.Build.St := ⟨cfg, [], []⟩
   calls : List RpmVerif.Build.Call := []
+  /-- `sgn=bs|b+s`: the package is signed after the build (`build_and_sign` / `build` + `sign`): lead, main header and payload
+  are those of the unsigned build, the signature header is not predicted -/
+  signed : Bool := false
 
 def kv (toks : List String) (k : String) : Option String :=
   toks.findSome? fun t => if t.startsWith (k ++ "=") then some (t.drop (k.length + 1)).toString else none
@@ -239,6 +242,14 @@ def callsOf (toks : List String) (fileReqs : List FileReq) : List RpmVerif.Build
         match (t.drop 3).toString.splitOn ":" with
         | [k, n, f, v] => .set (.dep (depKindsWire.idxOf k) ⟨hb n, f.toNat?.getD 0, hb v⟩) :: seq rest fs
         | _ => seq rest fs
+      else if t.startsWith "dpc=" then
+        -- a dependency made by the public constructor named (table `Gen.depCtors`, scraped from types.rs)
+        match (t.drop 4).toString.splitOn ":" with
+        | [k, ctor, n, v] =>
+          (match RpmVerif.Bld.depCtor (RpmVerif.Gen.depCtorNames.idxOf ctor) (hb n) (hb v) with
+           | some d => [Call.set (.dep (depKindsWire.idxOf k) d)]
+           | none => []) ++ seq rest fs
+        | _ => seq rest fs
       else if t.startsWith "sc=" then
         let p := (t.drop 3).toString.splitOn ":"
         match parseScript p with
@@ -278,7 +289,7 @@ def parseReqWith (valid : Bytes → Bool) (toks : List String) : Option Req := d
     | .err e => (st0.cfg, some e)
     | .panic p => (st0.cfg, some ("panic:" ++ p))
   let now ← (g "now").bind (·.toNat?)
-  pure ⟨cfg, fileReqs, now, buildErr, st0, calls⟩
+  pure ⟨cfg, fileReqs, now, buildErr, st0, calls, (g "sgn").isSome⟩
 
 /-- (the configurations of C06 / C08 / C09 / C11 carry valid capability texts only) -/
 def parseReq (toks : List String) : Option Req := parseReqWith (fun _ => true) toks
@@ -300,7 +311,7 @@ def modelBuildObs (r : Req) (paysha archsha : String) : String × Package :=
   let lead := leadNew r.cfg.name
   let md : Metadata := ⟨lead, sig, hdr⟩
   let same := match parseMetadata (writeMetadata md) with | .ok (m2, _) => m2 == md | _ => false
-  let obs := s!"ok paysha={paysha} archsha={archsha} lead={hex16 (fnv (writeLead lead))} sig={hex16 (fnv (writeSignature sig))} hdr={hex16 (fnv hbytes)} hlen={hbytes.length} same={boolStr same} || {C05.dump md} {verifyDump hdr}"
+  let obs := s!"ok paysha={paysha} archsha={archsha} lead={hex16 (fnv (writeLead lead))} sig={if r.signed then "signed" else hex16 (fnv (writeSignature sig))} hdr={hex16 (fnv hbytes)} hlen={hbytes.length} same={boolStr same} || {C05.dump md} {verifyDump hdr}"
   (obs, ⟨md, []⟩)
 
 end RpmVerif.Driver.Bld
